@@ -2,6 +2,8 @@
 
 package bufanalysis
 
+import "strconv"
+
 const vMinInt = -1 << 63
 const vMaxInt = 1<<63 - 1
 
@@ -68,4 +70,53 @@ func VerifLemma_C02A_HashInts() {
 		return
 	}
 	verifAssert(ha != hb, "annotations differing in a position have different hashes")
+}
+
+// VerifLemma_C02A_ItoaModel validates the engine's model of strconv.Itoa (engine/intercepts_strconv.go), which
+// hash() and the printers rely on: the rendering is the canonical decimal numeral of x — optional '-', digits only,
+// no leading zero, and it evaluates back to x.
+func VerifLemma_C02A_ItoaModel() {
+	lo, hi := -verifParam("MAXABS"), verifParam("MAXABS")
+	if verifParam("FULL") == 1 {
+		lo, hi = vMinInt, vMaxInt
+	}
+	x := verifNondetInt(lo, hi)
+	s := strconv.Itoa(x)
+	verifCover("rendered")
+	verifAssert(len(s) > 0, "non-empty")
+	i := 0
+	if x < 0 {
+		verifAssert(s[0] == '-', "negative numbers start with '-'")
+		i = 1
+	}
+	verifAssert(len(s) > i, "at least one digit")
+	if len(s)-i > 1 {
+		verifAssert(s[i] != '0', "no leading zero")
+	}
+	if verifParam("FULL") >= 1 {
+		v := 0 // accumulates -|x| so that MinInt is representable
+		for ; i < len(s); i++ {
+			c := s[i]
+			verifAssert(c >= '0' && c <= '9', "digits only (64-bit)")
+			v = v*10 - int(c-'0')
+		}
+		if x < 0 {
+			verifAssert(v == x, "numeral evaluates to x (negative, 64-bit)")
+		} else {
+			verifAssert(-v == x, "numeral evaluates to x (64-bit)")
+		}
+		return
+	}
+	// small ranges: 32-bit accumulator (cheaper for the solver; |x| <= MAXABS < 2^31)
+	v := int32(0)
+	for ; i < len(s); i++ {
+		c := s[i]
+		verifAssert(c >= '0' && c <= '9', "digits only")
+		v = v*10 + int32(c-'0')
+	}
+	if x < 0 {
+		verifAssert(-v == int32(x), "numeral evaluates to x (negative)")
+	} else {
+		verifAssert(v == int32(x), "numeral evaluates to x")
+	}
 }
